@@ -594,6 +594,9 @@ impl Ldap {
             ],
         });
         if any_empty {
+            self.controls = None;
+            self.timeout = None;
+            self.search_opts = None;
             return Err(LdapError::AddNoValues);
         }
         Ok(self.op_call(LdapOp::Single, req).await?.0)
@@ -715,6 +718,9 @@ impl Ldap {
             ],
         });
         if any_add_empty {
+            self.controls = None;
+            self.timeout = None;
+            self.search_opts = None;
             return Err(LdapError::AddNoValues);
         }
         Ok(self.op_call(LdapOp::Single, req).await?.0)
